@@ -1,6 +1,6 @@
 #!/bin/bash
 # seedimport.sh <Cnn> <suffix> : copy a sub-agent's deliverables from /tmp/seed2/<Cnn> to seeded/<Cnn>-<suffix>, confirm with seedverify.sh
-id=$1; suf=$2; src=/tmp/seed2/$id; dst=/verif/seeded/$id-$suf
+id=$1; suf=$2; src=/tmp/seed${SEEDROUND:-2}/$id; dst=/verif/seeded/$id-$suf
 mkdir -p $dst; rm -rf $dst/demo
 cp $src/patch.diff $dst/; cp -r $src/demo $dst/
 python3 - <<PY
